@@ -1,6 +1,6 @@
 (* C16 - the JSON object builder behaves as an insertion-ordered map.  Statements only. *)
 From Coq Require Import String List.
-From QRB Require Import Base.Bytes Model.W Model.Values Model.Compile Model.JsonMap.
+From QRB Require Import Base.Bytes Model.W Model.Values Model.Compile Model.JsonMap Model.Api Model.Ctor Model.CtorFacts.
 Import ListNotations.
 
 Section C16.
@@ -45,6 +45,16 @@ Section C16.
   Theorem C16_select_json : forall b m (l : list (jop V)),
     select_apply_json (Some (EJson b m)) l = Some (to_exp (j_run (mkJ b m) l)).
   Proof. reflexivity. Qed.
+
+  (* API level: a call of Prop / PropIf / Unset on a JSON object value, as the constructor model of Model/Ctor.v
+     composes it (compared call by call with the implementation, harness mode api), is one step of the map
+     specification above; and so is every history of such calls starting at builder.JsonBuildObject(b) *)
+  Theorem C16_api_call_is_map_step : forall (j : jobj V) o key args,
+    sop_call V o = Some (key, args) -> meth key (to_exp j) args = Some (to_exp (s_step j o)).
+  Proof. exact (json_meth_is_step V). Qed.
+  Theorem C16_api_history : forall b (l : list (sop V)), forallb (plain_sop V) l = true ->
+    fold_left (json_call V) l (ctor "JsonBuildObject" [ABool b]) = Some (to_exp (fold_left s_step l (@mkJ V b []))).
+  Proof. exact (json_chain_result V). Qed.
 End C16.
 
 Print Assumptions C16_keys_unique.
@@ -52,3 +62,5 @@ Print Assumptions C16_flavour_preserved.
 Print Assumptions C16_batch_equiv.
 Print Assumptions C16_get_set_same.
 Print Assumptions C16_keys_unset.
+Print Assumptions C16_api_call_is_map_step.
+Print Assumptions C16_api_history.
